@@ -1,4 +1,4 @@
-\* C20 ext (specs/TagRules.tla), thorough: design check and export; TagsFilter with all 29 TagMatcher templates, <= 2 rules x single tags of 15 in addition.  Deadlock checking stays on: every behaviour must reach phase "done".
+\* C20 ext (specs/TagRules.tla), thorough: design check and export; TagsFilter with all 29 TagMatcher templates, <= 2 rules x single tags of 10 in addition.  Deadlock checking stays on: every behaviour must reach phase "done".
 SPECIFICATION Spec
 CONSTANTS
   Fams <- OnlyTF
